@@ -95,9 +95,17 @@ class Env:
         try:
             import shutil
             nobody = [shutil.which(vp.NOBODY[0]) or vp.NOBODY[0]] + vp.NOBODY[1:]
-            p = subprocess.run((nobody if self.as_nobody else []) + [os.path.join(vp.BIN, "vptest"), self.scenario], env=env, stdout=subprocess.PIPE, stderr=subprocess.PIPE, timeout=timeout, cwd=self.root)
-            rc, err = p.returncode, p.stderr.decode(errors="replace")
+            # (a session of its own: on a timeout the stand-ins the test process started are killed with it, none is left behind blocked)
+            p = subprocess.Popen((nobody if self.as_nobody else []) + [os.path.join(vp.BIN, "vptest"), self.scenario], env=env, stdout=subprocess.PIPE, stderr=subprocess.PIPE, cwd=self.root, start_new_session=True)
+            out_, err_ = p.communicate(timeout=timeout)
+            rc, err = p.returncode, err_.decode(errors="replace")
         except subprocess.TimeoutExpired:
+            import signal
+            try:
+                os.killpg(p.pid, signal.SIGKILL)
+            except OSError:
+                pass
+            p.communicate()
             rc, err = None, "timeout"
         log = []
         if os.path.exists(self.log):
